@@ -429,6 +429,8 @@ CHECKS = {
             T('MC_Sub', 'Sub_quick.cfg'),
             T('MC_Sub', 'Sub_full.cfg', tiers=('thorough',)),
             C('sub', 'TestSub', 'TraceSub', n={'quick': 120, 'thorough': 1500}),
+            C('subscn', 'TestSub', 'TraceSub', file='sub', n={'quick': 150, 'thorough': 6000},
+              scn=[('MC_SubScn', {'quick': ['SubScn_q5.cfg'], 'thorough': ['SubScn_q5.cfg', 'SubScn_z.cfg']})]),
             T('MC_RawSock', 'Raw_xpub.cfg'), T('MC_RawSock', 'Raw_xsub.cfg'),
             R('xpub', 'xpub'), R('pub', 'xpub'), R('xsub', 'xsub'),
         ],
